@@ -397,7 +397,14 @@ def search(prop, tier, base_seed, jobs=None, runs=None, wall=None, verbose=True)
                              "fresh_interpreter_reproduces": fresh == r.get("digest"),
                              "ops_before": len(scn.get("ops", [])), "ops_after": len(small.get("ops", []))})
     finally:
+        # never leave workers behind: an orphaned worker keeps the caller's stdout pipe open
+        procs = list(getattr(pool, "_processes", {}).values())
         pool.shutdown(wait=False, cancel_futures=True)
+        for p in procs:
+            try:
+                p.kill()
+            except Exception:
+                pass
 
     wall = time.time() - t0
     ev = build_evidence(mod, prop, tier, base_seed, results, reported, known_lines, known, wall, jobs,
